@@ -217,33 +217,36 @@ structure LoopState where
   errors : List Diag := []
   seenUndeclared : List String := []
 
-def actionsLoop (fl : Flags) (assignments : AMap Ex) (widths : AMap Width) (declared : List String)
-    (constants : AMap WireValue) (byOutput : AMap FixedFunction) : List String → LoopState → LoopState
-  | [], st => st
-  | name :: rest, st =>
-    let st : LoopState :=
-      match assignments.get? name with
-      | some expr =>
-        let st := if (refs expr).all st.covered.contains then st else { st with errors := st.errors ++ panicDiag }
-        match widths.get? name with
-        | some w =>
-          match check fl widths.toCtx constants.toEnv expr with
-          | .ok ew =>
-            let st : LoopState := match w.combine ew with
-              | some _ => st
-              | none => { st with errors := st.errors ++ [(⟨.MismatchedWireWidths, [name]⟩ : Diag)] }
-            { st with result := st.result ++ [Action.assign name (fixMux fl widths.toCtx constants.toEnv expr) w] }
-          | .error ds => { st with errors := st.errors ++ ds }
-        | none => { st with errors := st.errors ++ [⟨.UndeclaredWireAssigned, [name]⟩] }
+/-- one turn of the loop over the sorted names -/
+def loopStep (fl : Flags) (assignments : AMap Ex) (widths : AMap Width) (declared : List String)
+    (constants : AMap WireValue) (byOutput : AMap FixedFunction) (st : LoopState) (name : String) : LoopState :=
+  let st : LoopState :=
+    match assignments.get? name with
+    | some expr =>
+      let st := if (refs expr).all st.covered.contains then st else { st with errors := st.errors ++ panicDiag }
+      match widths.get? name with
+      | some w =>
+        match check fl widths.toCtx constants.toEnv expr with
+        | .ok ew =>
+          let st : LoopState := match w.combine ew with
+            | some _ => st
+            | none => { st with errors := st.errors ++ [(⟨.MismatchedWireWidths, [name]⟩ : Diag)] }
+          { st with result := st.result ++ [Action.assign name (fixMux fl widths.toCtx constants.toEnv expr) w] }
+        | .error ds => { st with errors := st.errors ++ ds }
+      | none => { st with errors := st.errors ++ [⟨.UndeclaredWireAssigned, [name]⟩] }
+    | none =>
+      match byOutput.get? name with
+      | some f =>
+        let st := if (f.inWires.map (·.1)).all st.covered.contains then st else { st with errors := st.errors ++ panicDiag }
+        { st with result := st.result ++ [f.action] }
       | none =>
-        match byOutput.get? name with
-        | some f =>
-          let st := if (f.inWires.map (·.1)).all st.covered.contains then st else { st with errors := st.errors ++ panicDiag }
-          { st with result := st.result ++ [f.action] }
-        | none =>
-          if declared.contains name then { st with errors := st.errors ++ [⟨.UnsetWire, [name]⟩] }
-          else { st with seenUndeclared := setInsert st.seenUndeclared name }
-    actionsLoop fl assignments widths declared constants byOutput rest { st with covered := setInsert st.covered name }
+        if declared.contains name then { st with errors := st.errors ++ [⟨.UnsetWire, [name]⟩] }
+        else { st with seenUndeclared := setInsert st.seenUndeclared name }
+  { st with covered := setInsert st.covered name }
+
+def actionsLoop (fl : Flags) (assignments : AMap Ex) (widths : AMap Width) (declared : List String)
+    (constants : AMap WireValue) (byOutput : AMap FixedFunction) (names : List String) (st : LoopState) : LoopState :=
+  names.foldl (loopStep fl assignments widths declared constants byOutput) st
 
 def assignmentsToActions (fl : Flags) (o : Orders) (assignments : AMap Ex) (widths : AMap Width) (known : List String)
     (fixed : List FixedFunction) (declared : List String) (constants : AMap WireValue) : C (List Action) :=
